@@ -284,14 +284,22 @@ fn confs(sel_sets: &[Vec<SelList>], reg_sets: &[Vec<Reg>], merge: bool) -> Vec<C
 }
 
 fn slice(ctx: &Ctx, name: &str, alpha: &[DEv], max_len: usize, confs: &[Conf], with_cut: bool) {
-    let n = crate::alpha::count_upto(alpha.len(), max_len);
-    par_for(n, 4, |di| {
+    slice_ctx(ctx, name, &[vec![]], alpha, max_len, confs, with_cut)
+}
+
+/// Like `slice`, every document prefixed by each of `prefixes`.
+fn slice_ctx(ctx: &Ctx, name: &str, prefixes: &[Vec<DEv>], alpha: &[DEv], max_len: usize, confs: &[Conf], with_cut: bool) {
+    let n = crate::alpha::count_upto(alpha.len(), max_len) * prefixes.len();
+    par_for(n, 4, |dj| {
         if ctx.over_time() {
             return;
         }
+        let di = dj / prefixes.len();
         let mut idx = vec![];
         crate::alpha::seq_at(di, alpha.len(), &mut idx);
-        let evs: Vec<DEv> = idx.iter().map(|&k| alpha[k].clone()).collect();
+        let mut evs: Vec<DEv> = prefixes[dj % prefixes.len()].clone();
+        evs.extend(idx.iter().map(|&k| alpha[k].clone()));
+        let di = dj;
         // canonical documents only: no adjacent text events (they would be one text node)
         if evs.windows(2).any(|w| matches!((&w[0], &w[1]), (DEv::Text(_), DEv::Text(_)))) {
             return;
@@ -365,6 +373,25 @@ pub fn run_check(ctx: &Ctx) -> i32 {
         with_remover.clone(),
     ];
     slice(ctx, &format!("D<={} x {} selector sets x {} registration sets registered as COMBINED handler entries, with cuts", if quick { 4 } else { 5 }, all_sel.len(), merged_sets.len()), &alpha, if quick { 4 } else { 5 }, &confs(&all_sel, &merged_sets, true), true);
+    // foreign content and integration points: names that cannot be hashed (x-y), end tags inside
+    // the HTML content of an integration point, self-closing syntax; mostly in tag-scan mode
+    let falpha = vec![
+        DEv::open("x-y"), DEv::close("x-y"), DEv::open("a"), DEv::close("a"), DEv::open_slash("a"), DEv::open("q"), DEv::close("q"), DEv::open("mi"), DEv::close("mi"),
+        DEv::open("desc"), DEv::close("desc"), DEv::open("input"), DEv::Text("t".into()), DEv::Comment("c".into()),
+    ];
+    let fprefixes = vec![
+        vec![DEv::open("math"), DEv::open("mi")],
+        vec![DEv::open("math"), DEv::open_a("annotation-xml", " encoding=\"text/html\"", &[("encoding", "text/html")])],
+        vec![DEv::open("svg"), DEv::open("desc")],
+        vec![DEv::open("svg")],
+        vec![DEv::open("math")],
+    ];
+    let fsel: Vec<Vec<SelList>> = vec![vec![pool[0].clone()], vec![pool[0].clone(), pool[1].clone()], vec![pool[2].clone()], vec![pool[5].clone(), pool[0].clone()]];
+    let fregs: Vec<Vec<Reg>> = vec![
+        vec![Reg::El(0)], vec![Reg::EndTag(0)], vec![Reg::Text(0)], vec![Reg::El(0), Reg::Text(1), Reg::EndTag(0)], vec![Reg::Comm(0), Reg::El(1)],
+        vec![Reg::El(0), Reg::DocText], full.clone(),
+    ];
+    slice_ctx(ctx, &format!("5 foreign / integration-point prefixes x 14-event foreign alphabet (unhashable names, self-closing, end tags inside integration points) <={} x {} selector sets x {} registration sets, with cuts", if quick { 3 } else { 4 }, fsel.len(), fregs.len()), &fprefixes, &falpha, if quick { 3 } else { 4 }, &confs(&fsel, &fregs, false), true);
     // wide configuration: 34 never-matching registrations first, so that the interesting handlers
     // have registration indices beyond one 32-bit word of the matcher's id sets
     let mut wide_sels: Vec<SelList> = (0..34).map(|i| SelList::one(Complex::single(ty(&format!("zz{i}"))))).collect();
